@@ -1,0 +1,384 @@
+// Copyright 2020-2025 Buf Technologies, Inc.
+//
+// Licensed under the Apache License, Version 2.0 (the "License");
+// you may not use this file except in compliance with the License.
+// You may obtain a copy of the License at
+//
+//      http://www.apache.org/licenses/LICENSE-2.0
+//
+// Unless required by applicable law or agreed to in writing, software
+// distributed under the License is distributed on an "AS IS" BASIS,
+// WITHOUT WARRANTIES OR CONDITIONS OF ANY KIND, either express or implied.
+// See the License for the specific language governing permissions and
+// limitations under the License.
+
+//go:build verif
+
+
+package storage
+
+// Contracts for the gocv verifier (see /verif/DESIGN.md). Comment-only. Author ca-D2: the functions of util.go,
+// limit.go, bucket.go, copy.go and the constructors of the combinators that had no contract yet (C13, C14, C15).
+// Ghost variables d2_*: /verif/specs/C15_os.spec.
+//
+// ---- util.go
+//
+// Exists(p) is "Stat(p) succeeds": exactly one Stat of exactly this path on exactly this bucket; a not-exist answer is
+// (false, nil), every other Stat error is returned unchanged (never turned into "does not exist").
+//@ func Exists(ctx, readBucket, path) (r, err)
+//@   property C14
+//@   modifies ghost.sinkPaths, ghost.sinkBuckets, ghost.d2_statErr
+//@   ghost after "_, err := readBucket.Stat(ctx, path)" d2_statErr := err
+//@   ensures asks-this-path: ghost.sinkPaths == add(old(ghost.sinkPaths), path) && ghost.sinkBuckets == add(old(ghost.sinkBuckets), readBucket)
+//@   ensures exists-iff-stat-ok: r <==> ghost.d2_statErr == nil
+//@   ensures stat-ok-no-error: ghost.d2_statErr == nil ==> err == nil
+//@   ensures not-exist-is-not-an-error: IsNotExist(ghost.d2_statErr) ==> err == nil
+//@   ensures other-error-kept: ghost.d2_statErr != nil && !IsNotExist(ghost.d2_statErr) ==> err == ghost.d2_statErr
+//@   canary ensures r
+//@   canary ensures err == nil
+//
+// IsEmpty(prefix): one walk of exactly this prefix on exactly this bucket; the first object reached ends the walk and
+// makes the answer false; "true" is only answered when the walk ended without reaching any object and without error;
+// an error of the walk itself is returned, never "empty". ("false without error only after an object was reached" is
+// not derivable: the trusted iterator contract of ReadBucket.Walk lets Walk fail with any error of its own, including
+// one that errors.Is the private sentinel.)
+//@ func IsEmpty(ctx, readBucket, prefix) (r, err)
+//@   property C14
+//@   modifies ghost.fail, ghost.sinkPaths, ghost.sinkBuckets, ghost.d2_objects
+//@   use d2_is_refl
+//@   ensures walks-this-prefix: ghost.sinkPaths == add(old(ghost.sinkPaths), prefix) && ghost.sinkBuckets == add(old(ghost.sinkBuckets), readBucket)
+//@   ensures true-without-error: r ==> err == nil
+//@   ensures empty-means-no-object: r ==> ghost.d2_objects == old(ghost.d2_objects)
+//@   ensures object-means-not-empty: ghost.d2_objects != old(ghost.d2_objects) ==> !r && err == nil
+//@   assert before "return false, err" walk-error-kept: err != nil && !errors.Is(err, errIsNotEmpty)
+//@   ghost before "return errIsNotEmpty" d2_objects := ghost.d2_objects + 1
+//@   closure 0 invariant ghost.d2_objects == old(ghost.d2_objects)
+//@   closure 0 invariant ghost.sinkPaths == add(old(ghost.sinkPaths), prefix) && ghost.sinkBuckets == add(old(ghost.sinkBuckets), readBucket)
+//@   closure 0 ensures first-object-stops: err == errIsNotEmpty
+//@   canary ensures r
+//@   canary ensures !r
+//
+// AllObjectInfos / allObjectInfos: one walk of exactly this prefix on exactly this bucket; the result holds the
+// objects the walk yielded (non-nil) - AllObjectInfos in path order -, and nothing when the walk failed.
+//@ func AllObjectInfos(ctx, readBucket, prefix) (r, err)
+//@   property C14
+//@   modifies ghost.fail, ghost.sinkPaths, ghost.sinkBuckets
+//@   ensures walks-this-prefix: ghost.sinkPaths == add(old(ghost.sinkPaths), prefix) && ghost.sinkBuckets == add(old(ghost.sinkBuckets), readBucket)
+//@   ensures sorted-by-path: err == nil ==> (forall a int, b int :: 0 <= a && a < b && b < len(r) ==> r[a].Path() <= r[b].Path())
+//@   ensures objects: err == nil ==> (forall k int :: 0 <= k && k < len(r) ==> r[k] != nil)
+//@   ensures failure-yields-nothing: err != nil ==> len(r) == 0
+//@   closure 0 invariant forall k int :: 0 <= k && k < len(allObjectInfos) ==> allObjectInfos[k] != nil
+//@   closure 0 invariant ghost.sinkPaths == add(old(ghost.sinkPaths), prefix) && ghost.sinkBuckets == add(old(ghost.sinkBuckets), readBucket)
+//@   canary ensures err != nil
+//@   canary ensures err == nil
+//
+//@ func allObjectInfos(ctx, readBucket, prefix) (r, err)
+//@   property C14
+//@   modifies ghost.fail, ghost.sinkPaths, ghost.sinkBuckets
+//@   ensures walks-this-prefix: ghost.sinkPaths == add(old(ghost.sinkPaths), prefix) && ghost.sinkBuckets == add(old(ghost.sinkBuckets), readBucket)
+//@   ensures objects: err == nil ==> (forall k int :: 0 <= k && k < len(r) ==> r[k] != nil)
+//@   ensures failure-yields-nothing: err != nil ==> len(r) == 0
+//@   closure 0 invariant forall k int :: 0 <= k && k < len(allObjectInfos) ==> allObjectInfos[k] != nil
+//@   closure 0 invariant ghost.sinkPaths == add(old(ghost.sinkPaths), prefix) && ghost.sinkBuckets == add(old(ghost.sinkBuckets), readBucket)
+//@   canary ensures err != nil
+//
+// pathToObjectInfo: the map is keyed by Path(): every object's path is a key, every key is the path of the object stored
+// under it, and that object is one of the given ones.
+//@ func pathToObjectInfo(objectInfos) (r)
+//@   property C14
+//@   ensures all-keyed: forall j int :: 0 <= j && j < len(objectInfos) ==> objectInfos[j].Path() in r
+//@   ensures keyed-by-path: forall k string :: k in r ==> r[k].Path() == k
+//@   ensures only-given: forall k string :: k in r ==> (exists j int :: 0 <= j && j < len(objectInfos) && objectInfos[j] == r[k])
+//@   loop 0 invariant forall j int :: 0 <= j && j < $i ==> objectInfos[j].Path() in m
+//@   loop 0 invariant forall k string :: k in m ==> m[k].Path() == k && (exists j int :: 0 <= j && j < $i && objectInfos[j] == m[k])
+//
+// sortObjectInfos sorts the caller's slice in place. Slices are value-semantic in the engine and a parameter name in
+// `ensures` denotes the ENTRY value, so the final order cannot be stated here; what is checked is that the comparator
+// is a strict weak order on Path() (#sort-comparator[0.irreflexive|transitive|ties-transitive]).
+//@ func sortObjectInfos(objectInfos) ()
+//@   property C14
+//@   modifies objectInfos
+//
+// Closing a composite bucket closes through closeFunc when there is one (its error is the result), else nothing.
+//@ func (c compositeReadWriteBucketCloser) Close() (err)
+//@   property C14 C15
+//@   modifies heap, ghost.fail, ghost.wfail
+//@   ensures nothing-to-close: c.closeFunc == nil ==> err == nil && ghost.fail == old(ghost.fail) && ghost.wfail == old(ghost.wfail)
+//@   ensures reported {C15}: ghost.fail && !old(ghost.fail) ==> err != nil
+//@   ensures write-reported {C15}: ghost.wfail && !old(ghost.wfail) ==> err != nil
+//
+// ---- bucket.go: the closer wrappers add a Close that cannot fail and nothing else; put options
+//@ func NopReadBucketCloser(readBucket) (r)
+//@   property C14
+//@   ensures r != nil && cast(nopReadBucketCloser, r).ReadBucket == readBucket
+//@ func NopWriteBucketCloser(writeBucket) (r)
+//@   property C14
+//@   ensures r != nil && cast(nopWriteBucketCloser, r).WriteBucket == writeBucket
+//@ func NopReadWriteBucketCloser(readWriteBucket) (r)
+//@   property C14
+//@   ensures r != nil && cast(nopReadWriteBucketCloser, r).ReadWriteBucket == readWriteBucket
+//@ func (nopReadBucketCloser) Close() (err)
+//@   property C14
+//@   ensures err == nil
+//@ func (nopWriteBucketCloser) Close() (err)
+//@   property C14
+//@   ensures err == nil
+//@ func (nopReadWriteBucketCloser) Close() (err)
+//@   property C14
+//@   ensures err == nil
+//
+// Put options: the defaults are "not atomic, no chunk-size suggestion"; the accessors read the record; chunking is
+// suggested off exactly for an explicit size of 0 (so never together with a positive suggested size).
+//@ func newPutOptions() (r)
+//@   property C14 C15
+//@   ensures defaults: r != nil && !r.atomic && r.suggestedChunkSize == nil
+//@ pure func (p *putOptions) Atomic() (r)
+//@   property C14 C15
+//@   ensures r == p.atomic
+//@ pure func (p *putOptions) SuggestedChunkSize() (r)
+//@   property C14
+//@   ensures r == ite(p.suggestedChunkSize == nil, 0, deref(p.suggestedChunkSize))
+//@ pure func (p *putOptions) SuggestedDisableChunking() (r)
+//@   property C14
+//@   ensures r == (p.suggestedChunkSize != nil && deref(p.suggestedChunkSize) == 0)
+//@ func (p *putOptions) isPutOptions() ()
+//@   property C14
+//
+// PutWithSuggestedChunkSize: negative sizes are ignored, the atomicity request is never touched.
+//@ func PutWithSuggestedChunkSize(suggestedChunkSize) (r)
+//@   property C14 C15
+//@   ensures r != nil
+//@   closure 0 ensures atomic-untouched: putOptions.atomic == old(putOptions.atomic)
+//@   closure 0 ensures negative-ignored: suggestedChunkSize < 0 ==> putOptions.suggestedChunkSize == old(putOptions.suggestedChunkSize)
+//@   closure 0 ensures suggested: suggestedChunkSize >= 0 ==> putOptions.suggestedChunkSize != nil && deref(putOptions.suggestedChunkSize) == suggestedChunkSize
+//
+// ---- copy.go: each copy option sets exactly its own flag
+//@ func CopyWithExternalAndLocalPaths() (r)
+//@   property C14 C15
+//@   ensures r != nil
+//@   closure 0 ensures sets-own-flag: copyOptions.externalAndLocalPaths && copyOptions.atomic == old(copyOptions.atomic)
+//@ func CopyWithAtomic() (r)
+//@   property C14 C15
+//@   ensures r != nil
+//@   closure 0 ensures sets-own-flag: copyOptions.atomic && copyOptions.externalAndLocalPaths == old(copyOptions.externalAndLocalPaths)
+//
+// ---- limit.go (C15): "stops with an error after limit bytes are written". The shared byte counter is an
+// atomic.Int64 whose trusted contract (/verif/specs/C09.spec) does not model its value, so the clauses speak about the
+// value Add returned: the delegate is written only when the counter, with this write added, stays within the limit
+// (the limit is enforced BEFORE writing); a refused write takes no byte and is reported as a write-limit error
+// carrying the limit and the excess; a delegate failure is reported.
+//@ func LimitWriteBucket(writeBucket, limit) (r)
+//@   property C15
+//@   ensures wraps: r != nil && cast(*limitedWriteBucket, r).WriteBucket == writeBucket && cast(*limitedWriteBucket, r).currentSize != nil
+//@   ensures negative-limit-is-zero: cast(*limitedWriteBucket, r).limit == ite(limit < 0, 0, limit)
+//
+//@ func newLimitedWriteBucket(bucket, limit) (r)
+//@   property C15
+//@   ensures r != nil && r.WriteBucket == bucket && r.limit == limit && r.currentSize != nil
+//@   ensures fresh: !old(allocated(r)) && allocated(r)
+//
+//@ func newLimitedWriteObjectCloser(writeObjectCloser, bucketSize, limit) (r)
+//@   property C15
+//@   ensures r != nil && r.WriteObjectCloser == writeObjectCloser && r.bucketSize == bucketSize && r.limit == limit
+//
+// Put forwards path and options unchanged to the wrapped bucket (so an atomic put stays atomic); the closer it
+// returns shares the bucket's counter and limit; a failed Put of the delegate is returned.
+//@ func (w *limitedWriteBucket) Put(ctx, path, opts) (obj, err)
+//@   property C13 C15
+//@   modifies ghost.fail, ghost.wfail, ghost.sinkPaths, ghost.sinkBuckets, ghost.lastPutOptions
+//@   ensures same-path {C13}: ghost.sinkPaths == add(old(ghost.sinkPaths), path) && ghost.sinkBuckets == add(old(ghost.sinkBuckets), old(w.WriteBucket))
+//@   ensures forwards-options: ghost.lastPutOptions == opts
+//@   ensures shared-counter: err == nil ==> obj != nil && cast(*limitedWriteObjectCloser, obj).bucketSize == old(w.currentSize) && cast(*limitedWriteObjectCloser, obj).limit == old(w.limit)
+//@   ensures err != nil ==> obj == nil
+//@   ensures reported: ghost.fail && !old(ghost.fail) ==> err != nil
+//@   ensures write-reported: ghost.wfail && !old(ghost.wfail) ==> err != nil
+//@   canary ensures err != nil
+//@   canary ensures err == nil
+//
+//@ func (o *limitedWriteObjectCloser) Write(p) (n, err)
+//@   property C15
+//@   modifies ghost.fail, ghost.wfail
+//@   assert before "writtenSize, err := o.WriteObjectCloser.Write(p)" limit-enforced-before-writing: newBucketSize <= o.limit
+//@   assert before "return 0, &errWriteLimitReached{" refused-only-over-limit: newBucketSize > o.limit && ghost.wfail == old(ghost.wfail)
+//@   ensures refused-takes-nothing: err != nil && !ghost.wfail ==> typeOf(err) == typeId(*errWriteLimitReached) && n == 0 && cast(*errWriteLimitReached, err).Limit == o.limit && cast(*errWriteLimitReached, err).ExceedingBy > 0
+//@   ensures reported: ghost.fail && !old(ghost.fail) ==> err != nil
+//@   ensures write-reported: ghost.wfail && !old(ghost.wfail) ==> err != nil
+//@   canary ensures err != nil
+//@   canary ensures err == nil
+//
+// ---- mapper.go (C13, C14)
+//
+// MapChain: no mapper is the identity mapper, one mapper is that mapper, several are chained in the given order.
+//@ func MapChain(mappers) (r)
+//@   property C13 C14
+//@   ensures empty-is-identity: len(mappers) == 0 ==> r != nil && typeOf(r) == typeId(nopMapper)
+//@   ensures single: len(mappers) == 1 ==> r == mappers[0]
+//@   ensures chained: len(mappers) > 1 ==> r != nil && typeOf(r) == typeId(chainMapper) && cast(chainMapper, r).mappers == mappers
+//
+// prefixMapper.UnmapFullPath is the inverse of MapPath on the paths path-wise under the prefix ("ab/x" is NOT under
+// "a") and "does not apply" everywhere else; the inputs are expected normalized and validated (documented).
+//@ func (p prefixMapper) UnmapFullPath(fullPath) (path, ok, err)
+//@   property C13 C14
+//@   use e_rel-join, join-valid
+//@   reveal e_relTo, join2, ancOrSelf
+//@   requires validRel(p.prefix) && validRel(fullPath)
+//@   ensures outside-does-not-apply: !ancOrSelf(p.prefix, fullPath) ==> !ok && err == nil && path == ""
+//@   ensures inside-unmapped: ancOrSelf(p.prefix, fullPath) ==> ok && err == nil && validRel(path) && path == e_relTo(p.prefix, fullPath)
+// (a valid path never ends in "/."; that regular-language fact is not settled by the solvers within the budget, so it is a hypothesis here)
+//@   ensures inverse-of-map: ok && !hasSuffix(fullPath, "/.") ==> join2(p.prefix, path) == fullPath
+//@   ensures stringwise-prefix-rejected: p.prefix != "." && fullPath != p.prefix && !hasPrefix(fullPath, p.prefix + "/") ==> !ok
+//@   canary ensures ok
+//@   canary ensures !ok
+//
+//@ func (nopMapper) UnmapFullPath(fullPath) (path, ok, err)
+//@   property C13 C14
+//@   ensures identity: path == fullPath && ok && err == nil
+//
+//@ func (prefixMapper) isMapper() ()
+//@   property C14
+//@ func (chainMapper) isMapper() ()
+//@   property C14
+//@ func (nopMapper) isMapper() ()
+//@   property C14
+//
+// ---- map.go: constructors of the mapped views and their closers (C13, C14, C15)
+//
+//@ func newMapReadBucketCloser(delegate, closeFunc, mapper) (r)
+//@   property C13 C14
+//@   ensures built: r != nil && r.delegate == delegate && r.mapper == mapper && r.closeFunc == closeFunc
+//@   ensures fresh: !old(allocated(r)) && allocated(r)
+//
+//@ func newMapWriteBucketCloser(delegate, closeFunc, mapper) (r)
+//@   property C13 C14
+//@   ensures built: r != nil && r.delegate == delegate && r.mapper == mapper && r.closeFunc == closeFunc
+//@   ensures fresh: !old(allocated(r)) && allocated(r)
+//
+// Without mappers the bucket itself is returned; otherwise a view over exactly this bucket whose mapper is the chain
+// of the given mappers (MapChain) and whose Close is the bucket's.
+//@ func MapReadBucketCloser(readBucketCloser, mappers) (r)
+//@   property C13 C14
+//@   ensures no-mappers-identity: len(mappers) == 0 ==> r == readBucketCloser
+//@   ensures view: len(mappers) > 0 ==> r != nil && typeOf(r) == typeId(*mapReadBucketCloser) && cast(*mapReadBucketCloser, r).delegate == readBucketCloser && (len(mappers) == 1 ==> cast(*mapReadBucketCloser, r).mapper == mappers[0])
+//
+//@ func MapWriteBucketCloser(writeBucketCloser, mappers) (r)
+//@   property C13 C14
+//@   ensures no-mappers-identity: len(mappers) == 0 ==> r == writeBucketCloser
+//@   ensures view: len(mappers) > 0 ==> r != nil && typeOf(r) == typeId(*mapWriteBucketCloser) && cast(*mapWriteBucketCloser, r).delegate == writeBucketCloser && (len(mappers) == 1 ==> cast(*mapWriteBucketCloser, r).mapper == mappers[0])
+//
+//@ func MapReadWriteBucketCloser(readWriteBucketCloser, mappers) (r)
+//@   property C13 C14
+//@   ensures no-mappers-identity: len(mappers) == 0 ==> r == readWriteBucketCloser
+//@   ensures view: len(mappers) > 0 ==> r != nil && typeOf(r) == typeId(compositeReadWriteBucketCloser)
+//
+// Closing a view closes through closeFunc when there is one (its error is the result), else does nothing.
+//@ func (r *mapReadBucketCloser) Close() (err)
+//@   property C14 C15
+//@   modifies heap, ghost.fail, ghost.wfail
+//@   ensures nothing-to-close: old(r.closeFunc) == nil ==> err == nil && ghost.fail == old(ghost.fail) && ghost.wfail == old(ghost.wfail)
+//@   ensures reported {C15}: ghost.fail && !old(ghost.fail) ==> err != nil
+//@ func (w *mapWriteBucketCloser) Close() (err)
+//@   property C14 C15
+//@   modifies heap, ghost.fail, ghost.wfail
+//@   ensures nothing-to-close: old(w.closeFunc) == nil ==> err == nil && ghost.fail == old(ghost.fail) && ghost.wfail == old(ghost.wfail)
+//@   ensures reported {C15}: ghost.fail && !old(ghost.fail) ==> err != nil
+//@   ensures write-reported {C15}: ghost.wfail && !old(ghost.wfail) ==> err != nil
+//
+// A mapped write view never accepts external/local paths: the capability is off and both setters fail.
+//@ func (w *mapWriteBucketCloser) SetExternalAndLocalPathsSupported() (r)
+//@   property C14
+//@   ensures !r
+//@ func (writeObjectCloserExternalAndLocalPathsNotSupported) SetExternalPath(s) (err)
+//@   property C14 C15
+//@   ensures always-refused: err != nil && err == ErrSetExternalPathUnsupported
+//@ func (writeObjectCloserExternalAndLocalPathsNotSupported) SetLocalPath(s) (err)
+//@   property C14 C15
+//@   ensures always-refused: err != nil && err == ErrSetLocalPathUnsupported
+//
+// ---- filter.go / multi.go / strip.go: constructors
+//
+//@ func newFilterReadBucketCloser(delegate, closeFunc, matcher) (r)
+//@   property C13 C14
+//@   ensures built: r != nil && r.delegate == delegate && r.matcher == matcher && r.closeFunc == closeFunc
+//@   ensures fresh: !old(allocated(r)) && allocated(r)
+//
+// No matcher: the bucket itself. Otherwise a filter over exactly this bucket whose matcher is the conjunction of
+// the given ones (andMatcher.MatchPath is verified to be "all of them").
+//@ func FilterReadBucket(readBucket, matchers) (r)
+//@   property C13 C14
+//@   ensures no-matchers-identity: len(matchers) == 0 ==> r == readBucket
+//@   ensures filter: len(matchers) > 0 ==> r != nil && typeOf(r) == typeId(*filterReadBucketCloser) && cast(*filterReadBucketCloser, r).delegate == readBucket && cast(*filterReadBucketCloser, r).closeFunc == nil
+//@   ensures conjunction: len(matchers) > 0 ==> typeOf(cast(*filterReadBucketCloser, r).matcher) == typeId(andMatcher) && cast(andMatcher, cast(*filterReadBucketCloser, r).matcher) == matchers
+//
+//@ func FilterReadBucketCloser(readBucketCloser, matchers) (r)
+//@   property C13 C14
+//@   ensures no-matchers-identity: len(matchers) == 0 ==> r == readBucketCloser
+//@   ensures filter: len(matchers) > 0 ==> r != nil && typeOf(r) == typeId(*filterReadBucketCloser) && cast(*filterReadBucketCloser, r).delegate == readBucketCloser
+//@   ensures conjunction: len(matchers) > 0 ==> typeOf(cast(*filterReadBucketCloser, r).matcher) == typeId(andMatcher) && cast(andMatcher, cast(*filterReadBucketCloser, r).matcher) == matchers
+//
+//@ func (r *filterReadBucketCloser) Close() (err)
+//@   property C14 C15
+//@   modifies heap, ghost.fail, ghost.wfail
+//@   ensures nothing-to-close: old(r.closeFunc) == nil ==> err == nil && ghost.fail == old(ghost.fail) && ghost.wfail == old(ghost.wfail)
+//@   ensures reported {C15}: ghost.fail && !old(ghost.fail) ==> err != nil
+//
+//@ func newMultiReadBucket(delegates, overlay) (r)
+//@   property C13 C14
+//@   ensures built: r != nil && r.delegates == delegates && r.overlay == overlay
+//@   ensures fresh: !old(allocated(r)) && allocated(r)
+//
+// MultiReadBucket / OverlayReadBucket: none -> the empty bucket; one -> that bucket; several -> the union (overlay
+// off: overlapping paths are an error) resp. the overlay (first bucket wins) of exactly the given buckets in order.
+//@ func MultiReadBucket(readBuckets) (r)
+//@   property C13 C14
+//@   ensures none-is-empty: len(readBuckets) == 0 ==> r != nil && typeOf(r) == typeId(nopReadBucket)
+//@   ensures single: len(readBuckets) == 1 ==> r == readBuckets[0]
+//@   ensures union: len(readBuckets) > 1 ==> r != nil && typeOf(r) == typeId(*multiReadBucket) && cast(*multiReadBucket, r).delegates == readBuckets && !cast(*multiReadBucket, r).overlay
+//
+//@ func OverlayReadBucket(readBuckets) (r)
+//@   property C13 C14
+//@   ensures none-is-empty: len(readBuckets) == 0 ==> r != nil && typeOf(r) == typeId(nopReadBucket)
+//@   ensures single: len(readBuckets) == 1 ==> r == readBuckets[0]
+//@   ensures overlay: len(readBuckets) > 1 ==> r != nil && typeOf(r) == typeId(*multiReadBucket) && cast(*multiReadBucket, r).delegates == readBuckets && cast(*multiReadBucket, r).overlay
+//
+//@ func newStripReadBucket(delegate) (r)
+//@   property C13 C14
+//@   ensures built: r != nil && r.delegate == delegate
+//@ func StripReadBucketExternalPaths(readBucket) (r)
+//@   property C13 C14
+//@   ensures built: r != nil && typeOf(r) == typeId(*stripReadBucket) && cast(*stripReadBucket, r).delegate == readBucket
+//
+// ---- matcher.go: the leaf matchers are what their names say (closure 0 is the predicate), And/Not wrap exactly
+// the given matchers
+//@ func MatchPathBase(base) (m)
+//@   property C14
+//@   ensures m != nil
+//@   closure 0 ensures base-equal: r == (normalpath.Base(path) == base)
+//@ func MatchPathEqualOrContained(equalOrContainingPath) (m)
+//@   property C14
+//@   ensures m != nil
+//@   closure 0 requires validRel(equalOrContainingPath) && validRel(path)
+//@   closure 0 ensures pathwise: r <==> ancOrSelf(equalOrContainingPath, path)
+//@ func MatchPathContained(containingDir) (m)
+//@   property C14
+//@   ensures m != nil
+//@   closure 0 requires validRel(containingDir) && validRel(path) && path != "."
+//@   closure 0 ensures strictly-inside: r <==> (containingDir != path && ancOrSelf(containingDir, path))
+//@ func MatchAnd(matchers) (r)
+//@   property C14
+//@   ensures conjunction: typeOf(r) == typeId(andMatcher) && cast(andMatcher, r) == matchers
+//@ func MatchNot(matcher) (r)
+//@   property C14
+//@   ensures negation: typeOf(r) == typeId(notMatcher) && cast(notMatcher, r).delegate == matcher
+//@ func (pathMatcherFunc) isMatcher() ()
+//@   property C14
+//@ func (orMatcher) isMatcher() ()
+//@   property C14
+//@ func (andMatcher) isMatcher() ()
+//@   property C14
+//@ func (notMatcher) isMatcher() ()
+//@   property C14
+// a function used as a matcher answers what the function answers
+//@ func (f pathMatcherFunc) MatchPath(path) (r)
+//@   property C14
+//@   callback pure f
+//@   ensures forwards: r == f(path)
